@@ -282,14 +282,47 @@ def walker_methods():
     return [st.name for st in node.body if isinstance(st, ast.FunctionDef) and st.name.startswith('map_')]
 
 
-def spec_walker(method, presence):
-    """presence: tuple of booleans, one per optional child: present / absent"""
+# literal node kinds and their structural children: whatever walker LokiWalkMapper ALIASES them to must visit these
+ALIASED_CHILDREN = {'map_int_literal': [('kind', 'opt')], 'map_logic_literal': [], 'map_string_literal': [],
+                    'map_intrinsic_literal': []}
+
+
+def walker_aliases():
+    """class-level assignments `map_x = map_y` / `map_x = WalkMapper.map_y` of LokiWalkMapper for the literal kinds:
+    (alias, source file, qualified name of the function that really runs)"""
+    import ast
+    from pyvc import rewrite
+    node, _ = rewrite.find_def(ast.parse(rewrite.read_source(MAP)), 'LokiWalkMapper')
+    out = []
+    for st in node.body:
+        if isinstance(st, ast.Assign) and len(st.targets) == 1 and isinstance(st.targets[0], ast.Name):
+            name = st.targets[0].id
+            if name not in ALIASED_CHILDREN:
+                continue
+            v = st.value
+            if isinstance(v, ast.Name):
+                out.append((name, MAP, 'LokiWalkMapper.' + v.id))
+            elif isinstance(v, ast.Attribute) and isinstance(v.value, ast.Name) and v.value.id == 'WalkMapper':
+                out.append((name, WALK, 'WalkMapper.' + v.attr))
+            else:
+                out.append((name, None, ast.unparse(v)))
+    return out
+
+
+def spec_walker(method, presence, alias_of=None):
+    """presence: tuple of booleans, one per optional child: present / absent; alias_of: (file, qualname) of the function a
+    class-level alias `method = ...` resolves to (the children table is the alias's own)"""
     src_file, src_qual = MAP, 'LokiWalkMapper.' + method
     if method.startswith('pymbolic:'):
         method = method.split(':')[1]
         src_file, src_qual = WALK, 'WalkMapper.' + method
-    fn = inline(src_file, src_qual, {'list': list})
     table = CHILDREN.get(method)
+    if alias_of is not None:
+        src_file, src_qual = alias_of
+        table = ALIASED_CHILDREN[method]
+        if src_file is None:
+            raise OutOfSubset('LokiWalkMapper.%s is aliased to %s, which the sidecar cannot resolve' % (method, src_qual))
+    fn = inline(src_file, src_qual, {'list': list})
 
     def setup(spec):
         c = ctx()
@@ -342,9 +375,14 @@ def spec_walker(method, presence):
         full = [('visit', expr)] + [('rec', t) for t in want] + [('post', expr)]
         vetoed = [('visit', expr)]
         same = lambda a, b: len(a) == len(b) and all(x[0] == y[0] and x[1] is y[1] for x, y in zip(a, b))
+        if not want:
+            # a leaf: there is nothing to descend into, so a veto of visit() has no child visits to suppress (pymbolic's
+            # leaf walkers post-visit regardless)
+            return [('visits-exactly-the-structural-children', B(same(log, full) or same(log, vetoed)))]
         return [('visits-exactly-the-structural-children', z3.If(env['veto'], B(same(log, vetoed)), B(same(log, full))))]
     sp = FunctionSpec(PROP, src_file, src_qual, {}, setup, post, theory=T, lemmas=[],
-                      variant='optional children %s' % (presence,) if presence else None,
+                      variant=(('alias %s, ' % method) if alias_of is not None else '') + (
+                          'optional children %s' % (presence,) if presence else 'no optional children') if (presence or alias_of) else None,
                       decode=lambda env, m, r: {'function': src_qual})
     sp.fn_override = run
     import ast
@@ -554,6 +592,10 @@ def specs(tier='quick'):
         nopt = sum(1 for _, how in CHILDREN.get(m, []) if how in ('opt', 'optnone'))
         for pres in itertools.product((True, False), repeat=nopt):
             out.append(spec_walker(m, pres))
+    for alias, f, q in walker_aliases():
+        nopt = sum(1 for _, how in ALIASED_CHILDREN[alias] if how in ('opt', 'optnone'))
+        for pres in itertools.product((True, False), repeat=nopt):
+            out.append(spec_walker(alias, pres, alias_of=(f, q)))
     return out + finder_specs()
 
 
@@ -588,7 +630,7 @@ META = {
                   'list of matching nodes that does not descend below a TypeDef and, in greedy mode, below a match (for '
                   'FindScopes: the ancestor chains). Every map_* method LokiWalkMapper defines is executed and must visit '
                   'exactly the structural children of its node kind, in order, and post-visit the node once (nothing if '
-                  'visit() vetoes). The list lemmas are proved by induction on every run. ExpressionFinder.visit_Node / visit_tuple / visit_VariableDeclaration / _return / find_uniques are executed from their real source on abstract tokens for every shape of up to three children (nodes with and without matches, nested tuples) and declarations of one to three symbols with every pattern of initialisers, unique or not: the result is every match of every child, in order, including the matches of every declared symbol\'s initialiser.',
+                  'visit() vetoes). The list lemmas are proved by induction on every run. The class-level aliases of the literal kinds (map_int_literal = ..., map_logic_literal = ...) are resolved and the function they point to is verified against the literal's own children. ExpressionFinder.visit_Node / visit_tuple / visit_VariableDeclaration / _return / find_uniques are executed from their real source on abstract tokens for every shape of up to three children (nodes with and without matches, nested tuples) and declarations of one to three symbols with every pattern of initialisers, unique or not: the result is every match of every child, in order, including the matches of every declared symbol\'s initialiser.',
     'level_note': 'Level other: ExpressionFinder (visit_Node / visit_tuple / _return / find_uniques / with_ir_node pairing / '
                   'visit_VariableDeclaration) and ExpressionRetriever.retrieve are NOT under contract (generator expressions '
                   'with nested flatten; named), nor are the pymbolic WalkMapper methods that LokiWalkMapper re-uses '
